@@ -126,6 +126,9 @@ type Node struct {
 	// Consensus, when set before the first engine call, replaces the null consensus of the
 	// engine objects built for this node (C16 plugs real consensus plugins in)
 	Consensus consensus.ConsensusInterface
+	// Net, when set before the first engine call, is the network of the engine objects (nil: none;
+	// the receive path then fails when an ancestor of a received block is unknown)
+	Net *SimNet
 }
 
 func envFor(w *memkv.World) *xconf.EnvConf {
@@ -269,7 +272,9 @@ func (n *Node) Reopen() error {
 	if err != nil {
 		return err
 	}
+	cons, net := n.Consensus, n.Net
 	*n = *m
+	n.Consensus, n.Net = cons, net // the configuration of the engine objects survives a restart
 	return nil
 }
 
